@@ -33,11 +33,18 @@ ASSUMPTIONS = ['interleaving granularity is one source line of the traced module
                'ParserQueue receivers use poll() only (queue.Queue.get would block the OS thread outside the scheduler)']
 
 TRACED = ('mido/ports.py', 'mido/parser.py', 'mido/tokenizer.py', 'mido/backends/_parser_queue.py', 'lib/doubles.py')
+# programs marked 'deep' can also be preempted inside the message codec (shared scratch state there would show)
+TRACED_DEEP = TRACED + ('mido/messages/encode.py', 'mido/messages/decode.py', 'mido/messages/messages.py')
 LAST = {}
 PRODUCED = []
 
 
 def make_msg(sender, seq, sysex):
+    if sysex == 'mixed' and sender == 0:
+        return mido.Message('clock')        # a real-time sender next to multi-byte senders (identified by count)
+    if sysex == 'same-type':
+        # all senders use the same message type with different channels / data (shared encoder state would mix them)
+        return mido.Message('polytouch', channel=sender, note=seq, value=seq + 1)
     if seq > 126:
         # long runs: the sequence number does not fit one data byte
         return mido.Message('sysex', data=[sender, seq % 128, 0x11, 0x22, 0x33, seq // 128])
@@ -53,6 +60,10 @@ def ident(m):
     """(sender, seq) encoded in a received message, or None if it is not an intact sent message."""
     if type(m) is not mido.Message:
         return None
+    if m.type == 'clock' and m.time == 0:
+        return (0, -1)
+    if m.type == 'polytouch' and m.value == m.note + 1 and m.time == 0:
+        return (m.channel, m.note)
     if m.type == 'clock' and isinstance(m.time, int) and 1 <= m.time < 2000:
         return ((m.time - 1) // 100, (m.time - 1) % 100)
     if m.type == 'control_change' and m.value == m.control + 1 and m.time == 0:
@@ -137,7 +148,7 @@ def restore_world(saved):
 
 def run_program(prog, schedule, first=0, max_steps=None):
     n_msgs = sum(prog['senders'])
-    sched = Scheduler(TRACED, schedule=schedule, first=first,
+    sched = Scheduler(TRACED_DEEP if prog.get('deep') else TRACED, schedule=schedule, first=first,
                       max_steps=max_steps or (4000 + 1500 * n_msgs * (2 + len(prog['receivers']))))
     port, send, copies, saved = build_world(prog, sched)
     sent = []         # (sender, seq, object, snapshot bytes)
@@ -198,9 +209,23 @@ def run_program(prog, schedule, first=0, max_steps=None):
             sched.add(sender(i, n))
         for r, spec in enumerate(prog['receivers']):
             sched.add(receiver(r, spec))
-        sched.run()
+        # Determinism: the cyclic garbage collector may run BasePort.__del__ (-> close(), traced lines, lock traffic)
+        # of ports from earlier cases at any moment inside a program thread, which would consume schedule steps.
+        # So: no collection while a schedule runs, and nothing collectable is left behind afterwards.
+        import gc
+        gc.disable()
+        try:
+            sched.run()
+        finally:
+            gc.enable()
     finally:
         restore_world(saved)
+        for obj in [port] + list(getattr(port, 'ports', [])) + [getattr(port, 'input', None), getattr(port, 'output', None)]:
+            if obj is not None and hasattr(obj, 'closed'):
+                obj.closed = True
+        for t in sched.threads:
+            t.fn = None
+        sched.by_ident.clear()
     return sched, sent, received, copies
 
 
@@ -221,7 +246,8 @@ def evaluate(prog, sched, sent, received, copies):
     sent_objs = {id(m) for _, _, m, _ in sent}
     want = {}
     for i, j, m, snap in sent:
-        want[(i, j)] = want.get((i, j), 0) + copies
+        key = ident(mido.Message.from_bytes(snap)) if prog.get('sysex') == 'mixed' else (i, j)
+        want[key] = want.get(key, 0) + copies
     seen = {}
     for r, got in enumerate(received):
         per_sender = {}
@@ -246,7 +272,7 @@ def evaluate(prog, sched, sent, received, copies):
                 # the c-th copy of message j must come after the c-th copy of message j-1 as seen by this receiver,
                 # unless that earlier copy went to another receiver: with one receiver the rule is exact
                 counts[j] = c + 1
-            if copies == 1 and seqs != sorted(seqs):
+            if copies == 1 and seqs != sorted(seqs) and prog.get('sysex') != 'mixed':
                 out.append(fail('order', f'receiver {r} got sender {s}\'s messages in order {seqs}', **facts))
                 return out
             if copies > 1 and len(prog['receivers']) == 1:
@@ -270,7 +296,31 @@ def evaluate(prog, sched, sent, received, copies):
     return out
 
 
+def check_backlog(n):
+    out = []
+    for kind in ('echo', 'ioport'):
+        port = ports_mod.EchoPort()
+        view = port if kind == 'echo' else ports_mod.IOPort(port, port)
+        for i in range(n):
+            view.send(mido.Message('pitchwheel', channel=i % 16, pitch=(i // 16) % 16384 - 8192))
+        got = 0
+        first_bad = None
+        for m in view.iter_pending():
+            if first_bad is None and (m.channel != got % 16 or m.pitch != (got // 16) % 16384 - 8192):
+                first_bad = got
+            got += 1
+        if got != n or first_bad is not None:
+            out.append(fail('backlog', f'{kind}: sent {n} messages before anything was received, got {got} back'
+                                       f' (first wrong one at position {first_bad})', port=kind))
+        port.closed = True
+        view.closed = True
+    return out
+
+
 def run_case(case):
+    if case.get('kind') == 'backlog':
+        LAST.clear()
+        return check_backlog(case['n'])
     prog = case['prog']
     sched, sent, received, copies = run_program(prog, case.get('sched'), case.get('first', 0))
     LAST.clear()
@@ -279,7 +329,13 @@ def run_case(case):
     return evaluate(prog, sched, sent, received, copies)
 
 
+_DO = [0]
+
+
 def do(rec, case, sample=False):
+    _DO[0] += 1
+    if not rec.keep(_DO[0], 12):
+        return []
     fs = rec.execute(case)
     nt = LAST.get('interesting', 0) > 0
     # distinct by program + executed thread sequence
@@ -317,6 +373,11 @@ def small_programs():
         if port in ('multi', 'multi-yield'):
             progs.append({'port': port, 'senders': [3], 'receivers': [{'mode': 'poll', 'quota': 3},
                                                                      {'mode': 'poll', 'quota': 3}]})
+        if port in ('wire', 'ioport-pair', 'ioport-shared'):
+            progs.append({'port': port, 'senders': [1, 1], 'receivers': [{'mode': 'poll', 'quota': 2}], 'sysex': 'mixed'})
+        if port in ('wire', 'echo'):
+            progs.append({'port': port, 'senders': [1, 1], 'receivers': [{'mode': 'poll', 'quota': 2}], 'sysex': 'same-type',
+                          'deep': True})
         if port in ('echo', 'multi', 'multi-yield'):
             # object-keeping ports with a real-time message that the sender changes right after send()
             progs.append({'port': port, 'senders': [2], 'receivers': [{'mode': 'poll', 'quota': two}], 'sysex': 'rt',
@@ -346,6 +407,26 @@ def window_shard(rec, shard):
                     idx += 1
                     if idx % n == k:
                         do(rec, {'prog': prog, 'sched': [[i, a], [j, b]], 'first': first})
+
+
+def triple_shard(rec, shard):
+    """Every schedule with exactly three preemptions for the shortest programs (EchoPort, under ~40 steps)."""
+    which, k, n = shard
+    progs = [{'port': 'echo', 'senders': [1, 1], 'receivers': [{'mode': 'poll', 'quota': 2}]},
+             {'port': 'echo', 'senders': [2], 'receivers': [{'mode': 'poll', 'quota': 1}, {'mode': 'poll', 'quota': 1}]},
+             {'port': 'echo', 'senders': [1], 'receivers': [{'mode': 'poll', 'quota': 1}, {'mode': 'iter_pending', 'quota': 1}],
+              'mutate': True},
+             {'port': 'echo', 'senders': [1, 1], 'receivers': [{'mode': 'receive', 'quota': 1}, {'mode': 'receive', 'quota': 1}]}]
+    prog = progs[which]
+    idx = 0
+    rec.execute({'prog': prog, 'sched': [], 'first': 0})
+    steps = min(LAST['steps'] + 6, 46)
+    nthreads = len(prog['senders']) + len(prog['receivers'])
+    for i, j, l in itertools.combinations(range(steps), 3):
+        for alts in itertools.product(range(1, nthreads), repeat=3):
+            idx += 1
+            if idx % n == k:
+                do(rec, {'prog': prog, 'sched': [[i, alts[0]], [j, alts[1]], [l, alts[2]]], 'first': 0})
 
 
 def enum_shard(rec, shard):
@@ -419,11 +500,16 @@ def main(ctx):
                                      f'{len(progs)} fixed small programs; larger programs / denser schedules sampled')
     if ctx.tier == 'quick':
         ctx.pmap('window_shard', [(w, k, 8) for w in (0, 1) for k in range(8)])
+        ctx.pmap('triple_shard', [(w, k, 4) for w in (0, 1) for k in range(4)])
+    else:
+        ctx.pmap('triple_shard', [(w, k, 8) for w in range(4) for k in range(8)])
     # volume: a long backlog through MultiPort / echo / wire in one go (non-preemptive schedule and one preemption)
     for port in ('multi', 'echo', 'wire', 'pqueue'):
         copies = 2 if port == 'multi' else 1
         prog = {'port': port, 'senders': [300], 'receivers': [{'mode': 'poll', 'quota': 300 * copies}]}
         for first, sched in ((0, []), (1, []), (0, [[2000, 1]])):
             do(ctx, {'prog': prog, 'sched': sched, 'first': first})
+    # a backlog beyond 2**17 on one port (sequential: the exactly-once clause does not need a second thread for this)
+    ctx.check({'kind': 'backlog', 'n': 140000}, sample=False)
     n = 160 if ctx.tier == 'quick' else 6000
     ctx.pmap('hyp_shard', [(k, n // 8) for k in range(8)])
